@@ -1013,7 +1013,13 @@ func makeMapArshaler(t reflect.Type) *arshaler {
 			}
 
 			var errUnmarshal error
-			for dec.PeekKind() != '}' {
+			for {
+				if ok, err := objectHasNext(dec); err != nil {
+					return err
+				} else if !ok {
+					break
+				}
+
 				// Unmarshal the map entry key.
 				k.SetZero()
 				err := unmarshalKey(dec, k, uo)
